@@ -177,7 +177,7 @@ macro_rules! c11_frequency_accuracy {
             let want = 16777216.0_f64 * f as f64; // exact
             vassert!(inc as f64 * fs as f64 <= want * (1.0 + 1.1920928955078125e-7), "C11/increment/not-too-fast-beyond-f32-rounding");
             vassert!((inc as f64 + 1.0) * fs as f64 >= want * (1.0 - 1.1920928955078125e-7), "C11/increment/too-slow-by-at-most-rounding-plus-one-step");
-            vassert!(inc <= 16777216 + 2, "C11/increment/at-most-one-cycle-per-tick");
+            vassert!(inc <= 16777216, "C11/increment/at-most-one-cycle-per-tick");
             vcover!(grid2 && k == 65536, "witness: f == fs");
             vcover!(k == 0, "witness: f == 0");
             vcover!(!grid2 && k == 1, "witness: 1/64 Hz");
@@ -186,11 +186,11 @@ macro_rules! c11_frequency_accuracy {
 }
 
 // @harness prop=C10,C11 tier=quick timeout=120
-// @about reachability of phases by ticking: any counter value < 2^24, any increment a frequency in [0, sample rate] can produce (0..=2^24+2): after tick() the counter is again < 2^24, so every phase the oscillator reaches by ticking is one of the 2^24 values the waveform harnesses quantify over
+// @about reachability of phases by ticking: any counter value < 2^24, any increment a frequency in [0, sample rate] can produce (0..=2^24, see c11_frequency_accuracy): after tick() the counter is again < 2^24, so every phase the oscillator reaches by ticking is one of the 2^24 values the waveform harnesses quantify over
 #[kani::proof]
 fn c10_tick_keeps_phase_in_range() {
     let mut pa = any_pa(false);
-    kani::assume(pa.verif_inc() <= N24 + 2);
+    kani::assume(pa.verif_inc() <= N24); // c11_frequency_accuracy: f <= fs gives at most one cycle per tick
     pa.tick();
     vassert!(pa.verif_acc() <= MASK, "C10/tick/phase-stays-below-one-cycle");
     vcover!(pa.verif_flag(), "witness: wrapped");
